@@ -309,7 +309,7 @@ def generate_ggsw(ctx, rng):
         so = sa + rng.range(-1, 1)
         so = max(so, adnum * adsize, adsize + 1)
         c["kout"] = so * c["bout"]
-        # res.dnum <= a.dnum is what the entry assertion admits (ggsw_keyswitch panicked for < before poulpy 95a5a90)
+        # res.dnum <= a.dnum is what the entry assertion admits (ggsw_keyswitch panicked for < before poulpy 4a48098)
         c["rdnum"] = adnum if (op not in ("ggsw_auto", "ggsw_ks") or k % 8 == 0) else max(1, adnum - 1)
         # key and tensor key cover the result precision
         a_size = ceil_div(max(sa, so) * c["bin"], c["bkey"])
@@ -470,6 +470,13 @@ def key_errors(c, p, rows, sk_in, sk_out):
         want = [x << sh for x in sk_in[i]]
         e = max(abs(centered(x - y, D)) for x, y in zip(num, want))
         worst = max(worst, e)
+        # key well-formedness (C03 covers key generation): every row must be an encryption of the input secret's
+        # gadget multiple with the *configured* noise (default sigma 3.2, bound 6 sigma, at precision kkey) — the
+        # result bound below is derived from the measured error, so a malformed key must be rejected here
+        allowed = 20 * (1 << max(0, D - c["kkey"])) + 2
+        if e > allowed:
+            raise OracleFail(f"key row {r}, input column {i} is not an encryption of s_in[{i}]*2^-{(r + 1) * dsize * b} within the "
+                             f"configured noise: error 2^{e.bit_length() - D} > 2^{allowed.bit_length() - D}")
     return worst, D
 
 
